@@ -118,7 +118,8 @@ Resync(S, pre, line, post) ==
               [] OTHER -> pre.fs[h] IN
   [pre EXCEPT !.nodes = post.nodes, !.reg = post.reg, !.queue = post.queue,
               !.active = post.active, !.sess = post.sess, !.linger = post.linger,
-              !.claimed = [x \in HostSet(S) |-> {q \in pre.claimed[x] : q[1] \in DOMAIN post.nodes}],
+              !.claimed = [x \in HostSet(S) |->
+                             [q \in DOMAIN pre.claimed[x] \cap DOMAIN post.nodes |-> pre.claimed[x][q]]],
               !.watches = {w \in pre.watches : /\ w.p \in DOMAIN post.nodes
                                                /\ ~(line.ev \in {"expire", "crash"} /\ w.h = h)},
               !.pc[h] = pc,
@@ -167,7 +168,7 @@ CallFail(S, pre, line, post) ==
   \cup F("C17.newerKept",
     line.rk = "delete" /\ line.rc \in ContSet(S) =>
        \A w \in ap : w.op = "delete" =>
-          ~\E q \in pre.claimed[h] : q[1] = w.path /\ q[2] \in pre.active[h] /\ Newer(S, q[2], line.rc))
+          ~Stolen(S, pre, h, w.path, line.rc))
   \cup F("C17.waits",
     /\ (pre.fs[h] /\ line.rk = "create" => ap = {})
     /\ RetriesWait(pre, line, post))
